@@ -32,6 +32,14 @@ def instances(tier):
     alpha = [P(1), P(BIG), I("DUP1"), I("SWAP1"), I("POP"), I("ADD"), I("ISZERO"), I("MSTORE"), I("SLOAD")]
     blocks = list(B.tree(alpha, 3, max_need=2))
     blocks = blocks[::9] if tier == "quick" else blocks[::2]
+    # every kind of store and load next to POP/SWAP (pruning constraints name instruction classes: a class that
+    # forgets one member removes the optimum only for that member)
+    alpha2 = [P(1), I("DUP1"), I("SWAP1"), I("POP"), I("MSTORE8"), I("SSTORE"), I("MLOAD"), I("MSTORE")]
+    b2 = [b for b in B.tree(alpha2, 3, max_need=3) if any(o in ("MSTORE8", "SSTORE", "MLOAD") for o, _ in b)]
+    blocks += b2[::3] if tier == "quick" else b2
+    for st in ("MSTORE", "MSTORE8", "SSTORE"):
+        blocks += [[I(st), I("POP")], [I(st), I("POP"), I("POP")], [I("SWAP1"), I("SWAP1"), I(st), I("POP")],
+                   [I("POP"), I(st)], [I("SWAP2"), I("POP"), I(st)]]
     blocks += [[P(BIG), P(BIG), I("ADD")], [P(1), P(1), P(1)], [P(BIG), I("DUP1"), I("DUP1")], [P(0), P(0), I("ADD")],
                [I("DUP1"), I("DUP1"), I("MSTORE")], [P(1), I("SLOAD"), P(1), I("SLOAD"), I("ADD")],
                [I("DUP2"), I("DUP2"), I("MSTORE"), I("SWAP1"), I("POP"), I("MLOAD")]]
